@@ -226,6 +226,10 @@ def check_fiber_method(ctx, fb, f, rule):
                                'value with its argument')
             return
         if name not in REF and name not in CAS:
+            rec = fb.records.get(f.cls)
+            acc = [m['acc'] for m in (rec.methods if rec else []) if m['key'] == f.key]
+            if acc and acc[0] != 0:
+                return  # a private / protected helper: judged through the operations that inline it
             ctx.broken('fiber atomic method %s (%s) has no reference row in the operation table' % (f.full, f.where))
         s = FiberSum(fb, f)
         paths = s.run(f)
@@ -272,15 +276,29 @@ def check_fiber_method(ctx, fb, f, rule):
                            {k: show(v) for k, v in p.ref_writes.items()}) for p in paths))
         return
     ret, new = REF[name]
+    floating = bool(f.cta) and f.cta[0] in FLOATING
+
+    def ring(t):
+        """identities of modular (two's complement) arithmetic, valid for integral and pointer T only:
+        a + (0 - b) == a - b.  For floating T they are NOT applied: (-0.0) + (0 - (+0.0)) is +0.0, (-0.0) - (+0.0) is -0.0"""
+        if floating or not (isinstance(t, tuple) and t and t[0] == 'op'):
+            return t
+        _, o, a, b = t
+        a, b = ring(a), ring(b)
+        if o == '+':
+            for x, y in ((a, b), (b, a)):
+                if isinstance(y, tuple) and y[0] == 'op' and y[1] == '-' and y[2] == ('const', 0):
+                    return norm(('op', '-', x, y[3]))
+        return norm(('op', o, a, b))
     if len(paths) != 1:
         ctx.report(rule, key, f.where, 'operation has %d paths, reference row is unconditional' % len(paths))
         return
     p = paths[0]
-    got_new = p.value if p.value_written and p.value != V else None
+    got_new = ring(p.value) if p.value_written and p.value != V else None
     if f.ret == 'void':
         ret_ok = True
     else:
-        ret_ok = p.ret == ret
+        ret_ok = ring(p.ret) == ret
     if not ret_ok or got_new != new or p.ref_writes:
         ctx.report(rule, key, f.where,
                    '%s computes (returns %s, stores %s) but std::atomic::%s is (returns %s, stores %s)' % (
